@@ -46,3 +46,13 @@ Proof. destruct a, b, c; simpl; intros; try reflexivity; try discriminate. Qed.
 
 Example C14_ex : astype_outcome (DNull CI8) (DCore CI8) = CastErr /\ astype_outcome (DCore CF32) (DNull CI64) = CastTo (DNull CI64) false true.
 Proof. split; reflexivity. Qed.
+
+(* integers to and from their decimal text: reading back the text of any integer gives that integer; distinct
+   integers have distinct texts (print_int / parse_int are compared with the implementation's
+   astype(int -> utf8) / astype(utf8 -> int) on every run, inside Coq) *)
+From ND Require Import Ndx.TextCast.
+Theorem C14_text_round_trip : forall z : Z, parse_int (print_int z) = Some z.
+Proof. exact parse_print. Qed.
+Theorem C14_text_is_injective : forall a b : Z, print_int a = print_int b -> a = b.
+Proof. exact print_inj. Qed.
+Print Assumptions C14_text_round_trip.
